@@ -14,6 +14,7 @@ def spec(ex, name, args):
 
 
 def str_method(ex, base, attr, args, kwargs, st, n):
+    args = [ex.unwrap_opt(st, a, n) if a.pt.kind == 'opt' else a for a in args]
     s = base.t
     if attr == 'find':
         sub = args[0]
